@@ -528,7 +528,19 @@ func c14(w *core.World, r *core.Report) {
 			continue
 		}
 		n := 0
-		for _, g := range append([]*ssa.Function{f}, f.AnonFuncs...) {
+		fns := append([]*ssa.Function{f}, f.AnonFuncs...)
+		for _, sp := range core.Spawned(f) {
+			dup := false
+			for _, x := range fns {
+				if x == sp {
+					dup = true
+				}
+			}
+			if !dup {
+				fns = append(fns, sp) // the reader goroutine as a named method
+			}
+		}
+		for _, g := range fns {
 			for _, b := range core.Blocks(g) {
 				for _, in := range b.Instrs {
 					var at ssa.Instruction
@@ -632,7 +644,14 @@ func c14(w *core.World, r *core.Report) {
 			r.Check(ok, "HANDLER-AGREE", core.Site(h, "%s from the request", fld), w.InstrPos(c), "owner / priority selection of the INTENDED view must be the same in every encoding")
 		}
 		a := core.CallArgs(c)
-		r.Check(len(a) == 5 && a[3] == ssa.Value(core.Param(h, "paths")), "HANDLER-AGREE", core.Site(h, "reads the requested paths"), w.InstrPos(c), "the paths read are the paths requested")
+		okPaths := false
+		core.WithHost(h, func() {
+			if len(a) == 5 && core.Param(h, "paths") != nil {
+				os := core.Origins(a[3])
+				okPaths = len(os) == 1 && os[0] == ssa.Value(core.Param(h, "paths"))
+			}
+		})
+		r.Check(okPaths, "HANDLER-AGREE", core.Site(h, "reads the requested paths"), w.InstrPos(c), "the paths read are the paths requested")
 	}
 	{
 		h := hs[1]
@@ -683,12 +702,37 @@ func c15(w *core.World, r *core.Report) {
 	if run == nil {
 		return
 	}
-	// classify the stream sends by the literal they send
+	// classify the stream sends by the literal they send. A send that lives in a helper (sendDeviation(dm, rsp),
+	// sendDeviationEvent(dm, event, ...)) counts once per call of that helper in runDeviationUpdate: the message, or the
+	// fields of the literal built in the helper, are then what that call passes.
 	type sendInfo struct {
-		call   ssa.CallInstruction
+		call   ssa.CallInstruction // the send itself, or the call of the helper that sends
+		site   *ssa.Call           // the helper call (nil for a send written in runDeviationUpdate itself)
 		lit    *ssa.Alloc
 		event  int64
 		reason int64
+	}
+	resolveAt := func(v ssa.Value, site *ssa.Call) ssa.Value {
+		if v == nil || site == nil {
+			return v
+		}
+		h := core.InlinedCallee(site)
+		var res ssa.Value = v
+		core.WithoutInlining(func() {
+			for _, o := range append(core.Origins(v), v) {
+				if p, ok := o.(*ssa.Parameter); ok && p.Parent() == h {
+					for i, q := range h.Params {
+						if q == p && i < len(site.Call.Args) {
+							res = site.Call.Args[i]
+						}
+					}
+				}
+			}
+		})
+		return res
+	}
+	field := func(si sendInfo, name string) ssa.Value {
+		return resolveAt(literalField(si.lit, name), si.site)
 	}
 	var sends []sendInfo
 	for _, c := range core.Calls(run) {
@@ -696,24 +740,41 @@ func c15(w *core.World, r *core.Report) {
 			continue
 		}
 		a := core.CallArgs(c)
-		var lit *ssa.Alloc
-		for _, o := range append(core.Origins(a[0]), a[0]) {
-			if al, ok := o.(*ssa.Alloc); ok {
-				lit = al
+		var sites []*ssa.Call
+		if c.Parent() != run && core.IsInlined(c.Parent()) {
+			for _, s := range core.InlineSites(c.Parent()) {
+				if core.InBody(run, s.Parent()) {
+					sites = append(sites, s)
+				}
 			}
 		}
-		si := sendInfo{call: c, lit: lit, event: -1, reason: -1}
-		if v := literalField(lit, "Event"); v != nil {
-			if n, isC := core.ConstInt(v); isC {
-				si.event = n
-			}
+		if len(sites) == 0 {
+			sites = []*ssa.Call{nil}
 		}
-		if v := literalField(lit, "Reason"); v != nil {
-			if n, isC := core.ConstInt(v); isC {
-				si.reason = n
+		for _, site := range sites {
+			msg := resolveAt(a[0], site)
+			var lit *ssa.Alloc
+			for _, o := range append(core.Origins(msg), msg) {
+				if al, ok := o.(*ssa.Alloc); ok {
+					lit = al
+				}
 			}
+			si := sendInfo{call: c, site: site, lit: lit, event: -1, reason: -1}
+			if site != nil {
+				si.call = site
+			}
+			if v := field(si, "Event"); v != nil {
+				if n, isC := core.ConstInt(v); isC {
+					si.event = n
+				}
+			}
+			if v := field(si, "Reason"); v != nil {
+				if n, isC := core.ConstInt(v); isC {
+					si.reason = n
+				}
+			}
+			sends = append(sends, si)
 		}
-		sends = append(sends, si)
 	}
 
 	// ---- BRACKET
@@ -729,13 +790,32 @@ func c15(w *core.World, r *core.Report) {
 		}
 		return nil
 	}
-	var startRg, endRg *ssa.Range
+	// the instruction that stands for "the loop that sends this message to every stream": the range instruction, or
+	// the call of the helper that contains the loop
+	anchorOf := func(si sendInfo) ssa.Instruction {
+		if si.site != nil {
+			h := core.InlinedCallee(si.site)
+			for _, c := range core.OwnCalls(h) {
+				if k := core.CalleeKey(c); strings.HasSuffix(k, "WatchDeviationsServer.Send") || k == "google.golang.org/grpc.ServerStreamingServer.Send" {
+					if rangeOf(c) != nil {
+						return si.site
+					}
+				}
+			}
+			return nil
+		}
+		if rg := rangeOf(si.call); rg != nil {
+			return rg
+		}
+		return nil
+	}
+	var startRg, endRg ssa.Instruction
 	for _, s := range sends {
 		if s.event == 1 {
-			startRg = rangeOf(s.call)
+			startRg = anchorOf(s)
 		}
 		if s.event == 2 {
-			endRg = rangeOf(s.call)
+			endRg = anchorOf(s)
 		}
 	}
 	r.Check(startRg != nil && endRg != nil, "BRACKET", core.Site(run, "START and END are sent"), w.Pos(run.Pos()), "both brackets exist, each to every stream (range over the stream map)")
@@ -767,7 +847,7 @@ func c15(w *core.World, r *core.Report) {
 		}
 		nLit[s.reason]++
 		for _, fld := range need[s.reason] {
-			v := literalField(s.lit, fld)
+			v := field(s, fld)
 			ok := v != nil && !core.IsNilConst(v)
 			if _, isC := v.(*ssa.Const); isC {
 				ok = false
